@@ -13,12 +13,18 @@ class Raw:
         return "Raw(%r)" % self.text
 
 
+def jstr(x):
+    """JSON string literal that is also a valid YAML double-quoted scalar (DEL and C1 controls escaped)"""
+    out = json.dumps(x, ensure_ascii=False)
+    return "".join("\\u%04x" % ord(c) if (0x7f <= ord(c) <= 0x9f or ord(c) in (0x2028, 0x2029, 0xfeff)) else c for c in out)
+
+
 def emit(v, indent=0):
     """YAML flow-style (JSON superset) emitter; dict key order is preserved"""
     if isinstance(v, Raw):
         return v.text
     if isinstance(v, dict):
-        return "{" + ", ".join("%s: %s" % (json.dumps(k, ensure_ascii=False), emit(x)) for k, x in v.items()) + "}"
+        return "{" + ", ".join("%s: %s" % (jstr(k), emit(x)) for k, x in v.items()) + "}"
     if isinstance(v, (list, tuple)):
         return "[" + ", ".join(emit(x) for x in v) + "]"
     if isinstance(v, bool):
@@ -27,7 +33,7 @@ def emit(v, indent=0):
         return "null"
     if isinstance(v, (int, float)):
         return repr(v)
-    return json.dumps(v, ensure_ascii=False)
+    return jstr(v)
 
 
 def to_yaml(cfg):
@@ -36,7 +42,7 @@ def to_yaml(cfg):
         if isinstance(v, dict) and v and k in ("parameters", "services", "meta"):
             lines.append("%s:" % k)
             for k2, v2 in v.items():
-                lines.append("  %s: %s" % (json.dumps(k2, ensure_ascii=False), emit(v2)))
+                lines.append("  %s: %s" % (jstr(k2), emit(v2)))
         else:
             lines.append("%s: %s" % (k, emit(v)))
     return "\n".join(lines) + "\n"
